@@ -114,7 +114,12 @@ pub fn reconstruct_disclosure(
 ) -> Result<Disclosure, Error> {
     let digest = base64_hash(algorithm, disclosure);
     let key = if disclosure_array.len() == OBJECT_DISCLOSURE_LEN {
-        Some(disclosure_array[1].as_str().unwrap_or_default().to_string())
+        match disclosure_array[1].as_str() {
+            Some("_sd") | Some("...") | None => {
+                return Err(Error::InvalidDisclosureKey(disclosure_array[1].to_string()));
+            }
+            Some(k) => Some(k.to_string()),
+        }
     } else {
         None
     };
